@@ -81,6 +81,20 @@ SoundFor(pf, q) ==
 Soundness ==
     Done => \A k \in AllKeys : \A m \in Mutants(PathProofOf(kv, k)) : \A q \in AllKeys : SoundFor(m, q)
 
+
+\* C07: the aggregate of the honest proofs of ANY non-empty set of terminals verifies
+TermPaths == {Prefix(k, TermDepth(kv, k)) : k \in AllKeys}
+ProofFor(tp) == LET k == CHOOSE x \in AllKeys : HasPrefix(x, tp) /\ TermDepth(kv, x) = Len(tp) IN PathProofOf(kv, k)
+RECURSIVE SortPaths(_)
+SortPaths(S) == IF S = {} THEN <<>>
+                ELSE LET m == CHOOSE x \in S : \A y \in S \ {x} : BitLess(x, y) IN <<m>> \o SortPaths(S \ {m})
+\* terminator terminals carry their position as path; order the proofs by terminal path
+MultiEquivalence ==
+    Done => \A S \in (SUBSET TermPaths) \ {{}} :
+        LET order == SortPaths(S)
+            pfs == [i \in 1..Len(order) |-> ProofFor(order[i])]
+        IN VerifyMulti(MultiFrom(pfs), Root(kv)) = "Ok"
+
 \* export of every completed map (spec -> code direction): one line per map
 Export == Done => PrintT(<<"KV", ToJson({<<k, kv[k]>> : k \in DOMAIN kv})>>)
 =============================================================================
